@@ -32,6 +32,14 @@ CHECKS = {
          "Generated projects read/write calling-convention parameter registers in every syntactic position (assignments, load/store addresses, store values, conditions, indirect jump/call/return targets, declared parameters of extern calls) behind partial overwrites, loops and calls; compute_function_signatures runs on the pipeline-normalized program; every register the oracle's dataflow finds read-before-written from the entry (paths cut at every call) must be a reported parameter. One-sided by design (the analysis may over-approximate).",
          "Trusted: the demand dataflow in checks/c14.rs, deliberately an under-approximation of 'can be read' (bare-variable spills and arguments of non-returning calls are not demanded, as documented by the implementation).",
          "DESIGN.md §3 C14"),
+ "C08": ("generated multi-function programs; reference = declarative CFG specification (least fixed point over (block, function) pairs + set comprehensions); node/edge multiset equality (proptest tapes, shrinking)",
+         "Well-formed generated programs (shared blocks, all jump kinds, internal/extern/indirect/non-returning calls, empty functions, recursion) are passed to get_program_cfg; the node multiset and the edge multiset (labelled by term ids, edge kind and untaken-conditional annotation) must equal the harness' specification exactly; get_entry_nodes_of_subs must map exactly the non-empty functions to their entry nodes.",
+         "Trusted: the specification in checks/c08_spec.rs derived from the property statement and the module documentation of graph.rs. Details: notes/C08.md.",
+         "DESIGN.md §3 C08"),
+ "C09": ("generated raw extractor-shaped programs with injected irregularities; validity predicates over the output of normalize_basic + CFG equality with the C08 specification (proptest tapes, shrinking)",
+         "Raw programs with dangling branch/call/return/hint targets, non-entry blocks shared between functions, duplicated block/def/jmp ids, calls to no_return symbols and to functions without return, empty functions and recursion are normalized by normalize_basic (must not panic); invariants: unique ids, original entry block first, all targets exist and intraprocedural ones lie in the same function, non-returning calls return to the caller's artificial sink, CFG construction succeeds and equals the specification. Floors on each irregularity kind.",
+         "Trusted: invariant predicates in checks/c09.rs; generator never duplicates function ids or function entry blocks (excluded by the property). Details: notes/C09.md.",
+         "DESIGN.md §3 C09"),
 }
 
 NOT_APPLICABLE = {}
